@@ -18,6 +18,7 @@ ASSUMPTIONS = [
 ]
 
 VERSIONS = ["1.0", "1.5", "2.0", "2.5", "3.0"]
+PRE_VERSIONS = ["2.0rc1", "3.1b1", "3.0.dev1", "2.6a2"]
 
 
 SOURCE_DIR_NAMES = ["helper", "backtest", "latest", "contest", "attest", "greatest", "foo", "src", "testing", "protest"]
@@ -54,6 +55,14 @@ class StackStream(Stream):
         }
         if rng.random() < 0.25:
             case["only_binary"] = True        # the project is named under --only-binary: source *archives* are out, nothing else is
+        if rng.random() < 0.25:
+            # --pre: pre-releases are on for the whole stack; some locations hold release candidates
+            case["pre"] = True
+            for grp in ("findlinks", "indexes", "extras"):
+                for s_ in case[grp]:
+                    if rng.random() < 0.6:
+                        s_["versions"] = sorted(set(s_["versions"]) | set(rng.sample(PRE_VERSIONS, rng.randint(1, 2))))
+            case["req"] = "foo" + rng.choice(["", ">1.0", ">=2.0", "<3.1", ">2.5", "!=3.0"])
         if rng.random() < 0.4:
             # the solver asks one stack many times: earlier requests for the same project (other bounds) come first
             case["before"] = ["foo" + rng.choice([">=2.0", "<2.0", "==1.5", "!=3.0", ">=9", "==2.5", ""]) for _ in range(rng.choice([1, 1, 2]))]
@@ -96,7 +105,7 @@ class StackStream(Stream):
         wheeldir = os.path.join(d, "wheeldir")
         os.makedirs(wheeldir)
         repo = C.build_repo(sols, ["foo"] if case["upgrade"] else [], srcs, [], fls, index_urls, wheeldir,
-                            extra_index_urls=extra_urls, no_index=case["no_index"])
+                            extra_index_urls=extra_urls, no_index=case["no_index"], allow_prerelease=bool(case.get("pre")))
         session = B.FakeSession(idx_objs)
         for leaf in B.leaves(repo):
             if hasattr(leaf, "session"):
@@ -137,6 +146,18 @@ class StackStream(Stream):
                 src = case["solutions"][i] if i < ns else case["sources"][i - ns]
                 can = src["has"] and req.specifier.contains(src["version"], prereleases=True) and not (i < ns and case["upgrade"])
                 alone[i] = ["ok", src["version"]] if can else ["nocand", None]
+            if case.get("pre"):
+                # with pre-releases switched on every version a location holds is a candidate: what a find-links directory or
+                # an index "offers" is then plain to the harness as well - the newest version the request admits
+                from packaging.version import Version
+                held = [x["versions"] for x in case["findlinks"]]
+                if not case["no_index"]:
+                    held += ([x["versions"] for x in case["indexes"]] if case["indexes"] else [[]]) + [x["versions"] for x in case["extras"]]
+                for j, vs in enumerate(held):
+                    i = ns + nr + j
+                    if i < len(alone):
+                        okv = [v for v in vs if req.specifier.contains(v, prereleases=True)]
+                        alone[i] = ["ok", str(Version(max(okv, key=Version)))] if okv else ["nocand", None]
             # the stack, with a query log
             queried = []
             for i, leaf in enumerate(lv):
